@@ -232,6 +232,22 @@ def rule_c17_columns(prog: Program, col: Collector) -> None:
         rows = {a[0] for ev, a in items if a is not None}
         col.check(len(rows) == 1, ref.where(items[0][0].node), ref.short, "set_values branch writes the same rows in all three columns",
                   construct="set_values-rows", necessity="flag and bounds of different rows would disagree")
+        for row in rows:
+            if row[0] == "slice":
+                continue
+            cpar = ("param", ref.positional_params()[2])
+            core = row
+            while is_call_to(core, "numpy.fromiter", "numpy.array", "numpy.asarray", "list") and core[2]:
+                core = core[2][0]
+            ordered = False
+            if is_call_to(core, "map") and len(core[2]) == 2 and core[2][0][0] == "lambda" and core[2][0][2] == ("attr", core[2][0][1][0], "id") and core[2][1] == cpar:
+                ordered = True
+            if core[0] == "comp" and len(core[3]) == 1 and core[3][0][1] == cpar and not core[3][0][2] and core[2] == ("attr", core[3][0][0], "id"):
+                ordered = True
+            col.check(ordered, ref.where(items[0][0].node), ref.short,
+                      "selective set_values addresses rows by the ids of the given coalitions IN THE GIVEN ORDER (an id array, not a boolean mask)",
+                      construct="set_values-order",
+                      necessity="a boolean mask hands the values out in increasing id order: values[i] no longer lands on coalitions[i] unless the list happens to be sorted")
 
 
 def rule_c17_getters(prog: Program, col: Collector) -> None:
